@@ -584,7 +584,7 @@ func vC14LiveSubjects(srv *Server, own uint64, stream string) ([]string, []strin
 
 // vC14SubjectRequest: subject, envelope type and protobuf payload of a well-formed message for subject h
 // naming the entities ent (spec/Envelope.tla EntsOf) - resolved against what really exists on the server.
-func vC14SubjectRequest(srv *Server, part *partition, stream, h string, ent map[string]interface{}) (string, byte, []byte, error) {
+func vC14SubjectRequest(srv *Server, part *partition, stream, h string, ent map[string]interface{}, tag string) (string, byte, []byte, error) {
 	id := srv.config.Clustering.ServerID
 	name := map[string]string{"absent": "c14-no-such-stream", "empty": "", "present": stream}[vStr(ent, "s")]
 	count := int32(0)
@@ -630,8 +630,9 @@ func vC14SubjectRequest(srv *Server, part *partition, stream, h string, ent map[
 		return fmt.Sprintf("%s.%s.accept", srv.baseMetadataRaftSubject(), id), 0, nil, nil
 	case "ack", "ackasync":
 		code := map[string]int32{"zero": 0, "current": 2, "other": 99, "max": math.MaxInt32}[vStr(ent, "e")]
+		// the correlation id names the step: an answer that comes late is not taken for the next step's
 		data, err = proto.MarshalAck(&client.Ack{Stream: name, PartitionSubject: name, MsgSubject: name, Offset: 3,
-			AckError: client.Ack_Error(code)})
+			CorrelationId: tag, AckError: client.Ack_Error(code)})
 		return strip("", 1)
 	case "propagate":
 		req := &proto.PropagatedRequest{}
@@ -654,6 +655,43 @@ func vC14SubjectRequest(srv *Server, part *partition, stream, h string, ent map[
 		case "readonly":
 			req.Op = proto.Op_SET_STREAM_READONLY
 			req.SetStreamReadonlyOp = &proto.SetStreamReadonlyOp{Stream: name, Partitions: []int32{pid}, Readonly: true}
+		case "create": // a stream that exists, created again
+			req.Op = proto.Op_CREATE_STREAM
+			req.CreateStreamOp = &proto.CreateStreamOp{Stream: &proto.Stream{Name: name, Subject: name,
+				Partitions: []*proto.Partition{{Subject: name, Stream: name, Id: 0, ReplicationFactor: 1}}}}
+		case "delete":
+			req.Op = proto.Op_DELETE_STREAM
+			req.DeleteStreamOp = &proto.DeleteStreamOp{Stream: name}
+		case "joingroup", "leavegroup", "reportcoord":
+			// the group of this behaviour, with one member, is made to exist through the real API
+			group, member := "c14g-"+stream, "c14c"
+			if g := srv.metadata.GetConsumerGroup(group); g == nil || !g.IsMember(member) {
+				ctx, cancel := context.WithTimeout(context.Background(), vC14Deadline)
+				_, jerr := srv.api.JoinConsumerGroup(ctx, &client.JoinConsumerGroupRequest{GroupId: group, ConsumerId: member, Streams: []string{stream}})
+				cancel()
+				if jerr != nil {
+					return "", 0, nil, fmt.Errorf("join consumer group: %v", jerr)
+				}
+			}
+			consumer := map[string]string{"self": member, "unknown": "zzz", "empty": ""}[vStr(ent, "r")]
+			switch vStr(ent, "op") {
+			case "joingroup":
+				req.Op = proto.Op_JOIN_CONSUMER_GROUP
+				req.JoinConsumerGroupOp = &proto.JoinConsumerGroupOp{GroupId: group, ConsumerId: consumer, Streams: []string{name}}
+			case "leavegroup":
+				gid := map[string]string{"absent": "c14g-no-such-group", "present": group}[vStr(ent, "s")]
+				req.Op = proto.Op_LEAVE_CONSUMER_GROUP
+				req.LeaveConsumerGroupOp = &proto.LeaveConsumerGroupOp{GroupId: gid, ConsumerId: consumer}
+			default:
+				gid := map[string]string{"absent": "c14g-no-such-group", "present": group}[vStr(ent, "s")]
+				coord, cep := id, uint64(0)
+				if g := srv.metadata.GetConsumerGroup(group); g != nil {
+					coord, cep = g.GetCoordinator()
+				}
+				ep := map[string]uint64{"zero": 0, "current": cep, "other": cep + 7, "max": math.MaxUint64}[vStr(ent, "e")]
+				req.Op = proto.Op_REPORT_CONSUMER_GROUP_COORDINATOR
+				req.ReportConsumerGroupCoordinatorOp = &proto.ReportConsumerGroupCoordinatorOp{GroupId: gid, ConsumerId: consumer, Coordinator: coord, Epoch: ep}
+			}
 		}
 		data, err = proto.MarshalPropagatedRequest(req)
 		return strip(srv.getPropagateInbox(), 8)
@@ -988,7 +1026,8 @@ func TestVerifC14Server(t *testing.T) {
 					CrcOK: vBool(im, "crcOK")}
 				hl, pbOK, h := int(vInt(im, "hl")), vBool(step, "pbOK"), vStr(step, "h")
 				ent := step["ent"].(map[string]interface{})
-				subject, typ, tmpl, err := vC14SubjectRequest(srv, part, stream, h, ent)
+				tag := fmt.Sprintf("c14-%d-%d", b.ID, sn)
+				subject, typ, tmpl, err := vC14SubjectRequest(srv, part, stream, h, ent, tag)
 				if err != nil {
 					t.Fatalf("INCONCLUSIVE: %v", err)
 				}
@@ -1097,14 +1136,21 @@ func TestVerifC14Server(t *testing.T) {
 					nc.Flush()
 					time.Sleep(5 * time.Millisecond)
 					alive()
-					select {
-					case m := <-asyncResp:
-						if m.AsyncError != nil {
-							reply = "error"
-						} else if m.Ack != nil {
-							reply = "ack"
+					for waiting := true; waiting; {
+						select {
+						case m := <-asyncResp:
+							if m.CorrelationId != tag {
+								continue // the late answer of an earlier step
+							}
+							if m.AsyncError != nil {
+								reply = "error"
+							} else if m.Ack != nil {
+								reply = "ack"
+							}
+							waiting = false
+						case <-time.After(3 * time.Millisecond):
+							waiting = false
 						}
-					case <-time.After(3 * time.Millisecond):
 					}
 				default:
 					on := fmt.Sprintf("c14reply.%d.%d", b.ID, sn)
